@@ -77,6 +77,14 @@ def gen_bundles(rng, w, thorough):
             exs2 = [exch(u, 200, [(b'X-U', [b'odd'])], b'odd spelling'), exch(sib, 200, [(b'X-U', [b'sibling'])], b'sibling')] if sib != u else [exch(u, 200, [], b'odd spelling')]
             out.append(bundle(ver, u, None, None, exs2))
             out.append(bundle(ver, b'https://example.com/', u if ver == 'b1' else None, None, list(reversed(exs2))))
+        # absolute URLs without a host (urn:, file:, uuid-in-package:, mailto:, data:) where the format allows any absolute URL, and the
+        # empty string where a URL is optional
+        for u in (b'urn:uuid:f81d4fae-7dec-11d0-a765-00a0c91e6bf6', b'uuid-in-package:429fcc4e-0696-4bad-b099-ee9175f023ae', b'file:///index.html', b'https:/index.html', b'mailto:a@example.com', b'data:,x', b'about:blank'):
+            out.append(bundle(ver, u, None, None, [exch(b'https://example.com/', 200, [], b'x')]))
+            if ver == 'b1': out.append(bundle(ver, b'https://example.com/', u, None, [exch(b'https://example.com/', 200, [], b'x')]))
+            out.append(bundle(ver, b'https://example.com/', None, None, [exch(u, 200, [], b'x')]))
+        out.append(bundle(ver, b'', None, None, [exch(b'https://example.com/', 200, [], b'x')]))
+        out.append(bundle(ver, b'', None, None, []))
         # optional / positional fields left out (b1: the primary URL is a positional element of the top-level array)
         out.append(bundle(ver, None, None, None, [exch(b'https://example.com/', 200, [], b'x')]))
         out.append(bundle(ver, None, b'https://example.com/m' if ver == 'b1' else None, None, []))
@@ -91,6 +99,14 @@ def gen_bundles(rng, w, thorough):
         for _ in range(6 if not thorough else 60):
             p = list(exs); rng.shuffle(p)
             out.append(bundle('b1', b'https://example.com/v', None, None, p + [exch(b'https://example.com/other', 200, [], b'o')]))
+        # complete coverage PLUS one more representation whose Variant-Key names a value outside an axis / has the wrong arity / is empty
+        vh_ = b', '.join(name + b''.join(b';' + v for v in vals) for name, vals in axes)
+        for badkey in (b'zz', b';'.join([b'zz'] * len(axes)), b';'.join(c_ for c_ in grp[0][1]) + b';extra', b'"en"', grp[0][1][0].upper() if grp[0][1][0].upper() != grp[0][1][0] else b'ZZ'):
+            hsx = []
+            add(hsx, b'variants', vh_); add(hsx, b'variant-key', badkey)
+            extra = exch(b'https://example.com/v', 200, hsx, b'outside the axes: ' + badkey)
+            out.append(bundle('b1', b'https://example.com/v', None, None, exs + [extra]))
+            out.append(bundle('b1', b'https://example.com/v', None, None, [extra] + exs))
         out.append(bundle('b1', b'https://example.com/v', None, None, exs[:-1]))                # incomplete coverage
         out.append(bundle('b1', b'https://example.com/v', None, None, exs + [exs[0]]))          # overlapping coverage
         out.append(bundle('b2', b'https://example.com/v', None, None, exs))                     # b2: multiple resources
